@@ -365,6 +365,59 @@ impl Prop for C01 {
         if !done || !thorough {
             return;
         }
+        // (d2) thorough: triples over ALL 32 flag sets (payload sizes 0 / 3 / 1 by position) and quadruples over the core
+        ctx.begin_family("triples_all_shapes", "32^3 flag-set triples x 2 framings x (G_small)^4");
+        done = true;
+        'd2: for fr in &framings {
+            for a in 0u8..32 {
+                for b in 0u8..32 {
+                    for c in 0u8..32 {
+                        for g in 0..G_SMALL * G_SMALL * G_SMALL * G_SMALL {
+                            if ctx.mine() {
+                                let ms = vec![shape(fr, a, 0, 0, 1, 0), shape(fr, b, 3, 1, 2, 1), shape(fr, c, 1, 2, 3, 2)];
+                                let gs = vec![g_small(g % G_SMALL), g_small((g / G_SMALL) % G_SMALL), g_small((g / (G_SMALL * G_SMALL)) % G_SMALL), g_small(g / (G_SMALL * G_SMALL * G_SMALL))];
+                                run_stream(ctx, "triples", ms, gs);
+                            }
+                        }
+                        if ctx.out_of_time() {
+                            done = false;
+                            break 'd2;
+                        }
+                    }
+                }
+            }
+        }
+        ctx.end_family(done);
+        if !done {
+            return;
+        }
+        ctx.begin_family("quadruples", "6^4 core-shape quadruples x 2 framings x (G_small)^5");
+        done = true;
+        'd3: for fr in &framings {
+            for a in core6 {
+                for b in core6 {
+                    for c in core6 {
+                        for d in core6 {
+                            for g in 0..G_SMALL.pow(5) {
+                                if ctx.mine() {
+                                    let ms = vec![shape(fr, a, 0, 0, 1, 0), shape(fr, b, 3, 1, 2, 1), shape(fr, c, 9, 2, 3, 2), shape(fr, d, 2, 0, 4, 3)];
+                                    let gs: Vec<Vec<u8>> = (0..5).map(|k| g_small((g / G_SMALL.pow(k)) % G_SMALL)).collect();
+                                    run_stream(ctx, "triples", ms, gs);
+                                }
+                            }
+                            if ctx.out_of_time() {
+                                done = false;
+                                break 'd3;
+                            }
+                        }
+                    }
+                }
+            }
+        }
+        ctx.end_family(done);
+        if !done {
+            return;
+        }
         // (e) thorough: max-size messages in pairs with garbage
         ctx.begin_family("pairs_max", "pairs with one maximum-size message: 32 flag sets x position x 2 framings x (G_small)^3");
         done = true;
